@@ -54,6 +54,8 @@ def raw_cost(spec, x):
         return float(np.sum((x - a) ** 2) + 0.3 * np.sum(np.cos(3 * x)))
     if fam == 'plateau':
         return float(np.floor(np.sum(np.abs(x - a))))
+    if fam == 'rast':         # Rastrigin-type: rugged, makes Nelder-Mead shrink
+        return float(np.sum((x - a) ** 2 + 3.0 * (1.0 - np.cos(2.0 * np.pi * (x - a)))))
     if fam == 'stair':        # a quadratic bowl quantised to steps of 1/k: exact ties occur between nearby points
         k = float(spec.get('k', 10.0))
         return float(np.floor(k * np.sum(w * (x - a) ** 2)) / k)
@@ -130,7 +132,7 @@ class Cost(object):
 
 
 @st.composite
-def cost_specs(draw, dim, families=('quad', 'rosen', 'abs', 'cos', 'plateau', 'infhalf'), rets=('float', 'npfloat', 'arr0')):
+def cost_specs(draw, dim, families=('quad', 'rosen', 'abs', 'cos', 'plateau', 'infhalf', 'stair', 'rast'), rets=('float', 'npfloat', 'arr0')):
     fam = draw(st.sampled_from(list(families)))
     a = draw(st.lists(st.one_of(st.sampled_from([0.0, 1.0, -1.5, 0.5, 2.0]), finite_floats(-3, 3)), min_size=dim, max_size=dim))
     w = draw(st.lists(st.sampled_from([1.0, 1.0, 0.5, 10.0, 1e3, 1e-2]), min_size=dim, max_size=dim))
@@ -202,8 +204,9 @@ class Constraint(object):
         elif k == 'clamp':
             i = s['i']; v[i] = min(max(v[i], F(s['lo'])), F(s['hi']))
         elif k == 'round':
-            i = s['i']; g = F(s['g'])
-            if math.isfinite(v[i]): v[i] = round(v[i] / g) * g
+            g = F(s['g'])
+            for i in (range(len(v)) if s.get('all') else [s['i']]):
+                if math.isfinite(v[i]): v[i] = round(v[i] / g) * g
         elif k == 'tie':
             v[s['j']] = F(s['a']) * v[s['i']] + F(s['b'])
         elif k == 'sort':
@@ -243,7 +246,9 @@ class Constraint(object):
         if k == 'clamp':
             return F(s['lo']) <= v[s['i']] <= F(s['hi'])
         if k == 'round':
-            g = F(s['g']); return (not math.isfinite(v[s['i']])) or v[s['i']] == round(v[s['i']] / g) * g
+            g = F(s['g'])
+            return all((not math.isfinite(v[i])) or v[i] == round(v[i] / g) * g
+                       for i in (range(len(v)) if s.get('all') else [s['i']]))
         if k == 'tie':
             return v[s['j']] == F(s['a']) * v[s['i']] + F(s['b'])
         if k == 'sort':
@@ -288,13 +293,17 @@ def constraint_specs(draw, dim, box=None, symbolic=True):
         spec.update(i=i, lo=lo + f1 * (hi - lo), hi=lo + f2 * (hi - lo))
     elif kind == 'round':
         # a grid that contains both ends of the box side (so rounding never leaves the box)
-        n = draw(st.sampled_from([1, 2, 4, 8]))
+        # (dyadic grids, also fine ones: with a fine grid the vertices of a simplex sit on different grid values, and
+        # the midpoint of two grid points an odd number of steps apart is off the grid)
+        n = draw(st.sampled_from([1, 2, 4, 8, 64, 256]))
         if box:
             g = (hi - lo) / n if hi > lo else 1.0
             # only exact if lo is a multiple of g: use an integer box in the generator for this kind
             spec.update(i=i, g=g)
         else:
-            spec.update(i=i, g=draw(st.sampled_from([1.0, 0.5, 0.25, 2.0])))
+            spec.update(i=i, g=draw(st.sampled_from([1.0, 0.5, 0.25, 2.0, 0.015625, 0.00390625])))
+        if draw(st.booleans()):
+            spec['all'] = True          # every coordinate on the grid (callers re-check box compatibility)
     elif kind == 'tie':
         j = draw(st.integers(0, dim - 1).filter(lambda k: k != i))
         if box:
@@ -325,8 +334,9 @@ def box_compatible(spec, lo, hi):
             lo[spec['i']] <= min(max(lo[spec['i']], F(spec['lo'])), F(spec['hi'])) <= hi[spec['i']] and \
             lo[spec['i']] <= min(max(hi[spec['i']], F(spec['lo'])), F(spec['hi'])) <= hi[spec['i']]
     if k == 'round':
-        g = F(spec['g']); i = spec['i']
-        return round(lo[i] / g) * g == lo[i] and round(hi[i] / g) * g == hi[i]
+        g = F(spec['g'])
+        return all(round(lo[i] / g) * g == lo[i] and round(hi[i] / g) * g == hi[i]
+                   for i in (range(len(lo)) if spec.get('all') else [spec['i']]))
     if k == 'tie':
         return F(spec['a']) == 1.0 and F(spec['b']) == 0.0 and lo[spec['i']] == lo[spec['j']] and hi[spec['i']] == hi[spec['j']]
     if k == 'sort':
